@@ -16,8 +16,38 @@ static void* verif_memmove(void* d, void const* s, size_t n) {
     return d;
 }
 #define memmove(d, s, n) verif_memmove((d), (s), (n))
+#ifdef VERIF_READLN
+/* fgets oracle for ReadLnCont: every call delivers the next chunk of the file: 0..3 arbitrary characters (no NUL, no LF)
+ * optionally followed by LF.  A chunk without LF means the file ends there (the buffer offered is >= 128 bytes), later calls
+ * return NULL.  Ghosts count the physical lines delivered. */
+static int g_chunks, g_nulls, g_eof, g_quirk, g_last_unterminated;
+static char* verif_fgets(char* d, int n, FILE* f) {
+    unsigned len, i; int lf; char c[3];
+    (void)f;
+    VASSERT(n >= 128, "C03: ReadLnCont offers fgets at least 128 bytes");
+    if (g_eof || g_chunks >= 3) { g_eof = 1; g_nulls++; if (!g_last_unterminated) g_quirk = 1; g_last_unterminated = 0; return NULL; }
+    VND(len, uint); VASSUME(len <= 3); VND(lf, int); VASSUME(lf == 0 || lf == 1);
+    VND_BYTES(c, 3);
+    for (i = 0; i < 3; i++) VASSUME(c[i] != 0 && c[i] != '\n');
+    VASSUME(c[0] != '\\' || len == 1); VASSUME(c[1] != '\\' || len == 2); /* a backslash only as the last character (keeps the join loop short) */
+    if (len == 0 && !lf) { g_eof = 1; g_nulls++; g_quirk = 1; g_last_unterminated = 0; return NULL; } /* nothing left at all */
+    for (i = 0; i < len; i++) d[i] = c[i];
+    if (lf) d[len++] = '\n';
+    d[len] = 0;
+    g_chunks++;
+    g_last_unterminated = !lf;
+    if (!lf) g_eof = 1;
+    return d;
+}
+#define fgets(d, n, f) verif_fgets((d), (n), (f))
+#define ferror(f) 0
+#endif
 #include "strutil.c" /* the real /repo/strutil.c */
 #undef memmove
+#ifdef VERIF_READLN
+#undef fgets
+#undef ferror
+#endif
 
 static size_t slen(char const* p, size_t cap) { size_t n = 0; while (n < cap && p[n]) n++; return n; }
 
@@ -61,3 +91,25 @@ void h_strmaxprep(void) {
     VPOST(dest[k] == (k < want_s ? src[k] : d0[k - want_s]), "C13: strmaxprep result is src's prefix followed by dest");
     VREACH("end");
 }
+
+#ifdef VERIF_READLN
+int as_dynstr_realloc(as_dynstr_t* p_str, size_t new_alloc_len) { (void)p_str; (void)new_alloc_len; VASSERT(0, "harness: line buffer large enough, no reallocation expected"); return 0; }
+/* ReadLnCont: the number it returns is added to the line counter that diagnostics, listing and debug info name; it has to be
+ * the number of physical lines the logical line was joined from (files of at most 3 chunks of 0..3 characters). */
+void h_ReadLnCont(void) {
+    static char buf[144];
+    as_dynstr_t line;
+    size_t r;
+    line.p_str = buf; line.capacity = 144; line.dynamic = 0;
+    g_chunks = 0; g_nulls = 0; g_eof = 0; g_quirk = 0; g_last_unterminated = 0;
+    r = ReadLnCont((FILE*)0, &line);
+    VPOST(r >= 1, "C20: a read advances the line counter");
+    if (!g_quirk) {
+        VPOST(r == (size_t)g_chunks, "C20: ReadLnCont returns the number of physical lines consumed (a last line without newline counts)");
+        VREACH("counted");
+        if (g_last_unterminated == 0 && g_nulls == 1) VREACH("last line without newline");
+        if (g_chunks == 3) VREACH("two continuations");
+    }
+    VREACH("end");
+}
+#endif
